@@ -212,6 +212,8 @@ class Lower:
                 lit = a[1].replace("_", "")
                 if float(lit) == 1.0:
                     return "(Bopp (@Bone prec emax Hp Hpe))" if neg else "(@Bone prec emax Hp Hpe)"
+                if float(lit) == 2.0 and not neg:
+                    return "(Btwo prec emax Hp Hpe)"
                 raise Unsupported("literal %s" % lit)
             if e[2] == "sqrt" and not e[3]:       # correctly rounded IEEE operation, not libm
                 return "(Bsqrt mode_NE %s)" % self.go(e[1])
@@ -241,20 +243,43 @@ def sel_tail(body):
     return body[start:]
 
 
-def sel_if_break(body):
-    """condition of the `if <cond> { break; }` statement"""
-    v = vals(body)
-    for i in range(len(v)):
-        if v[i] == "if":
-            j = i + 1
-            d = 0
-            while j < len(v) and not (d == 0 and v[j] == "{"):
-                if v[j] in ("(", "["): d += 1
-                elif v[j] in (")", "]"): d -= 1
-                j += 1
-            if v[j:j + 4] == ["{", "break", ";", "}"]:
-                return body[i + 1:j]
-    raise Unsupported("no `if â€¦ { break; }`")
+def sel_if_stmt(kw):
+    """condition of the statement `if <cond> { kw; }`"""
+    def f(body):
+        v = vals(body)
+        for i in range(len(v)):
+            if v[i] == "if":
+                j, d = i + 1, 0
+                while j < len(v) and not (d == 0 and v[j] == "{"):
+                    if v[j] in ("(", "["): d += 1
+                    elif v[j] in (")", "]"): d -= 1
+                    j += 1
+                if v[j:j + 4] == ["{", kw, ";", "}"]:
+                    return body[i + 1:j]
+        raise Unsupported("no `if â€¦ { %s; }`" % kw)
+    return f
+
+
+sel_if_break = sel_if_stmt("break")
+
+
+def sel_return_elem(k):
+    """k-th element of the array literal in `return [ â€¦ ];`"""
+    def f(body):
+        v = vals(body)
+        for i in range(len(v) - 1):
+            if v[i] == "return" and v[i + 1] == "[":
+                j, d, start, elems = i + 2, 0, i + 2, []
+                while not (d == 0 and v[j] == "]"):
+                    if v[j] in ("(", "[", "{"): d += 1
+                    elif v[j] in (")", "]", "}"): d -= 1
+                    elif v[j] == "," and d == 0:
+                        elems.append(body[start:j]); start = j + 1
+                    j += 1
+                if start < j: elems.append(body[start:j])
+                return elems[k]
+        raise Unsupported("no `return [ â€¦ ]`")
+    return f
 
 
 def sel_assign(lhs):
@@ -340,6 +365,12 @@ SITES = [
     ("frechet_sample", "frechet.rs", "Frechet", "sample", sel_tail),
     ("unit_disc_accept", "unit_disc.rs", "UnitDisc", "sample", sel_if_break),
     ("unit_ball_accept", "unit_ball.rs", "UnitBall", "sample", sel_if_break),
+    ("unit_sphere_sum", "unit_sphere.rs", "UnitSphere", "sample", sel_assign(["sum"])),
+    ("unit_sphere_reject", "unit_sphere.rs", "UnitSphere", "sample", sel_if_stmt("continue")),
+    ("unit_sphere_factor", "unit_sphere.rs", "UnitSphere", "sample", sel_assign(["factor"])),
+    ("unit_sphere_x", "unit_sphere.rs", "UnitSphere", "sample", sel_return_elem(0)),
+    ("unit_sphere_y", "unit_sphere.rs", "UnitSphere", "sample", sel_return_elem(1)),
+    ("unit_sphere_z", "unit_sphere.rs", "UnitSphere", "sample", sel_return_elem(2)),
     ("dirichlet_stick_out", "multi/dirichlet.rs", "DirichletFromBeta", "sample_to_slice", sel_assign(["*", "s"])),
     ("dirichlet_stick_acc", "multi/dirichlet.rs", "DirichletFromBeta", "sample_to_slice", sel_assign(["acc"])),
     ("triangular_sample", "triangular.rs", "Triangular", "sample", lambda body: body),
@@ -364,6 +395,7 @@ HEADER = """(* GENERATED by tools/rs2coq.py (tools/flprog.py) from src/**/*.rs â
    float variables opq<k>; parameters in order of first occurrence. *)
 From Coq Require Import ZArith Bool.
 From Flocq Require Import Core.Core IEEE754.BinarySingleNaN.
+From RD Require Import Proofs.FlConst.
 """
 
 
